@@ -1312,6 +1312,14 @@ class CompositeEnvelope:
         product_states = [
             p for p in self.states if any(so in p.state_objs for so in states)
         ]
+        if len(product_states) == 0:
+            # None of the states is in a product state of this composite envelope yet
+            if len(states) == 1 and states[0].index is None:
+                return states[0].trace_out()
+            self.combine(*states)
+            product_states = [
+                p for p in self.states if any(so in p.state_objs for so in states)
+            ]
         assert len(product_states) > 0, "No product state found"
         ps: ProductState
         if len(product_states) > 1:
